@@ -46,6 +46,37 @@ package difflib
 //@ specfun groupsOK(a Slice<Str>, b Slice<Str>, gs Slice<Slice<S_difflib_OpCode>>) Bool =
 //@      (forall g in 0..len(gs): len(gs[g]) >= 1 && (forall c in 0..len(gs[g]): opW(a, b, gs[g][c])))
 //@ specfun hasChange(a Slice<Str>, b Slice<Str>, gs Slice<Slice<S_difflib_OpCode>>) Bool = exists g in 0..len(gs): exists c in 0..len(gs[g]): !sameR(a, b, gs[g][c])
+// "hunks never omit a changed line", stated over the hunks alone: the opcodes of a hunk are contiguous, and everything
+// outside the hunks - before the first, between two consecutive ones, after the last - is identical in both sequences
+//@ specfun sameFrom(a Slice<Str>, b Slice<Str>, i0 Int, i1 Int, j0 Int) Bool = forall u in i0..i1: a[u] == b[u - i0 + j0]
+//@ specfun lastOp(g Slice<S_difflib_OpCode>) S_difflib_OpCode = g[len(g) - 1]
+//@ specfun grpContigDef(g Slice<S_difflib_OpCode>) Bool = forall c in 0..len(g) - 1: g[c].I2 == g[c + 1].I1 && g[c].J2 == g[c + 1].J1
+//@ specfun grpContig(g Slice<S_difflib_OpCode>) Bool
+//@ axiom grpContig_def: forall g Slice<S_difflib_OpCode> {grpContig(g)}: grpContig(g) == grpContigDef(g)
+//@ specfun gapSameDef(a Slice<Str>, b Slice<Str>, p S_difflib_OpCode, q S_difflib_OpCode) Bool = p.I2 <= q.I1 && q.I1 - p.I2 == q.J1 - p.J2 && sameFrom(a, b, p.I2, q.I1, p.J2)
+//@ specfun gapSame(a Slice<Str>, b Slice<Str>, p S_difflib_OpCode, q S_difflib_OpCode) Bool
+//@ axiom gapSame_def: forall a Slice<Str>, b Slice<Str>, p S_difflib_OpCode, q S_difflib_OpCode {gapSame(a, b, p, q)}: gapSame(a, b, p, q) == gapSameDef(a, b, p, q)
+//@ specfun headSameDef(a Slice<Str>, b Slice<Str>, q S_difflib_OpCode) Bool = q.I1 == q.J1 && sameFrom(a, b, 0, q.I1, 0)
+//@ specfun headSame(a Slice<Str>, b Slice<Str>, q S_difflib_OpCode) Bool
+//@ axiom headSame_def: forall a Slice<Str>, b Slice<Str>, q S_difflib_OpCode {headSame(a, b, q)}: headSame(a, b, q) == headSameDef(a, b, q)
+//@ specfun tailSameDef(a Slice<Str>, b Slice<Str>, p S_difflib_OpCode) Bool = p.I2 <= len(a) && len(a) - p.I2 == len(b) - p.J2 && sameFrom(a, b, p.I2, len(a), p.J2)
+//@ specfun tailSame(a Slice<Str>, b Slice<Str>, p S_difflib_OpCode) Bool
+//@ axiom tailSame_def: forall a Slice<Str>, b Slice<Str>, p S_difflib_OpCode {tailSame(a, b, p)}: tailSame(a, b, p) == tailSameDef(a, b, p)
+//@ specfun hunksClosedDef(a Slice<Str>, b Slice<Str>, gs Slice<Slice<S_difflib_OpCode>>) Bool =
+//@      (forall g in 0..len(gs): len(gs[g]) >= 1 && grpContig(gs[g]))
+//@   && (len(gs) > 0 ==> headSame(a, b, gs[0][0]))
+//@   && (forall g in 0..len(gs) - 1: gapSame(a, b, lastOp(gs[g]), gs[g + 1][0]))
+//@ specfun hunksClosed(a Slice<Str>, b Slice<Str>, gs Slice<Slice<S_difflib_OpCode>>) Bool
+//@ axiom hunksClosed_def: forall a Slice<Str>, b Slice<Str>, gs Slice<Slice<S_difflib_OpCode>> {hunksClosed(a, b, gs)}: hunksClosed(a, b, gs) == hunksClosedDef(a, b, gs)
+//@ specfun outsideSame(a Slice<Str>, b Slice<Str>, gs Slice<Slice<S_difflib_OpCode>>) Bool =
+//@      hunksClosed(a, b, gs) && (len(gs) == 0 ==> sameSeq(a, b)) && (len(gs) > 0 ==> tailSame(a, b, lastOp(gs[len(gs) - 1])))
+//@ mode arr
+// an unchanged run e that follows p up to the end of both sequences: everything after p is identical
+//@ lemma tail_compose @C13: forall a Slice<Str>, b Slice<Str>, p S_difflib_OpCode, e S_difflib_OpCode {gapSame(a, b, p, e), tailSame(a, b, e)}:
+//@      gapSame(a, b, p, e) && opW(a, b, e) && e.Tag == 0 && tailSame(a, b, e) ==> tailSame(a, b, p)
+//@ lemma tail_eq @C13: forall a Slice<Str>, b Slice<Str>, p S_difflib_OpCode, q S_difflib_OpCode {tailSame(a, b, p), tailSame(a, b, q)}:
+//@      tailSame(a, b, p) && q.I2 == p.I2 && q.J2 == p.J2 ==> tailSame(a, b, q)
+//@ mode arr,lines
 //@ mode all
 
 //@ func min(a, b) returns (r)
@@ -150,6 +181,7 @@ package difflib
 //@   let B = old(m.b)
 //@   ensures [groups] groupsOK(A, B, r)
 //@   ensures [no_omission] !sameSeq(A, B) ==> hasChange(A, B, r)
+//@   ensures [outside_same] outsideSame(A, B, r)
 //@   ensures [seqs_kept] m.a == A && m.b == B
 //@   loop 1 invariant 0 <= $idx && $idx <= len(codes) && n >= 1 && nn == n + n
 //@   loop 1 invariant heap(sequenceMatcher.a) == old(heap(sequenceMatcher.a)) && heap(sequenceMatcher.b) == old(heap(sequenceMatcher.b))
@@ -157,9 +189,19 @@ package difflib
 //@   loop 1 invariant (len(A) > 0 || len(B) > 0) ==> (forall c in 0..len(group): opW(A, B, group[c]))
 //@   loop 1 invariant (len(A) > 0 || len(B) > 0) ==> (forall k in 0..len(codes): opW(A, B, codes[k]))
 //@   loop 1 invariant (len(A) == 0 && len(B) == 0) ==> len(codes) == 1 && codes[0].Tag == 0 && codes[0].I2 - codes[0].I1 <= 1
-//@   loop 1 invariant (exists k in 0..$idx: !sameR(A, B, codes[k])) ==> hasChange(A, B, groups) || (exists c in 0..len(group): !sameR(A, B, group[c]))
+//@   loop 1 invariant [chg] (exists k in 0..$idx: !sameR(A, B, codes[k])) ==> hasChange(A, B, groups) || (exists c in 0..len(group): !sameR(A, B, group[c]))
 //@   loop 1 invariant (len(A) == 0 && len(B) == 0) ==> len(groups) == 0 && (forall c in 0..len(group): group[c].Tag == 0 && group[c].I2 - group[c].I1 == group[c].J2 - group[c].J1) && len(group) <= $idx
-//@   loop 1 invariant !sameSeq(A, B) ==> (exists k in 0..len(codes): !sameR(A, B, codes[k]))
+//@   loop 1 invariant [chg] !sameSeq(A, B) ==> (exists k in 0..len(codes): !sameR(A, B, codes[k]))
+//@   isolate chg, no_omission
+//@   isolate codes, out, outside_same
+//@   let nonEmpty = len(A) > 0 || len(B) > 0
+//@   loop 1 invariant [codes] nonEmpty ==> len(codes) >= 1 && (forall k in 0..len(codes) - 1: codes[k].I2 == codes[k + 1].I1 && codes[k].J2 == codes[k + 1].J1)
+//@        && headSame(A, B, codes[0]) && tailSame(A, B, codes[len(codes) - 1])
+//@   loop 1 invariant [out] nonEmpty ==> hunksClosed(A, B, groups) && grpContig(group)
+//@        && (len(group) == 0 ==> $idx == 0 && len(groups) == 0)
+//@        && (len(group) > 0 ==> $idx >= 1 && lastOp(group).I2 == codes[$idx - 1].I2 && lastOp(group).J2 == codes[$idx - 1].J2)
+//@        && (len(group) > 0 && len(groups) == 0 ==> headSame(A, B, group[0]))
+//@        && (len(group) > 0 && len(groups) > 0 ==> gapSame(A, B, lastOp(groups[len(groups) - 1]), group[0]))
 
 //@ func (*sequenceMatcher).chainB(m)
 //@   mode arr
